@@ -347,6 +347,27 @@ def axiom_names(txt):
     return names
 
 
+def coqchk_accepts(txt):
+    """coqchk -silent -o prints, on success, only its context summary (and exits 0; a module it rejects makes it stop with
+    an error instead): accepted = the summary is there and every section of it (axioms, type-in-type, unsafe fixpoints,
+    assumed positivity) is empty or holds allowed standard-library axioms only"""
+    if "CONTEXT SUMMARY" not in txt or "Error" in txt or "Fatal" in txt:
+        return False
+    secs = re.findall(r"^\* ([^:\n]+):(.*?)(?=^\* |\Z)", txt, re.S | re.M)
+    for name, body in secs:
+        body = body.strip()
+        if name.startswith("Theory"):
+            continue
+        if body in ("", "<none>"):
+            continue
+        if name.startswith("Axioms"):
+            names = [l.split()[0] for l in body.splitlines() if l.strip()]
+            if all(n in ALLOWED_AXIOMS for n in names):
+                continue
+        return False
+    return True
+
+
 def coqchk():
     """Independent re-check of Properties.vo and everything it depends on; cached on the .vo mtime."""
     with Lock("coqchk"):
@@ -354,10 +375,12 @@ def coqchk():
         clog = os.path.join(COQ, "coqchk.log")
         if os.path.exists(clog) and os.path.getmtime(clog) >= os.path.getmtime(pvo):
             txt = open(clog).read()
-            return ("Modules were successfully checked" in txt), txt
+            return coqchk_accepts(txt), txt
         rc, out = sh(["coqchk", "-silent", "-o", "-Q", COQ, "Model", "Model.Properties"], cwd=COQ, timeout=7200)
+        if rc != 0:
+            out += "\nError: coqchk exited with status %d\n" % rc
         open(clog, "w").write(out)
-        return (rc == 0 and "Modules were successfully checked" in out), out
+        return (rc == 0 and coqchk_accepts(out)), out
 
 
 # ----------------------------------------------------------------------------- generic differential run
